@@ -79,6 +79,10 @@ fn main() {
         i += 1;
     }
     println!("frsim seed={} tier={} workers={}", opts.seed, opts.tier.name(), opts.workers);
+    if opts.tier == Tier::Thorough {
+        // the thorough tier also draws longer texts (up to 14 characters instead of 8)
+        gen::set_text_bonus(6);
+    }
     let code = match positional.first().map(|s| s.as_str()) {
         Some("check") => match positional.get(1).map(|s| s.as_str()) {
             Some("C07") => c07::run(&opts),
